@@ -283,7 +283,11 @@ void jv_const_get(int ek, int which, void* out) {
  * 32 bytes (256), 64 bytes (512). The return value carries the carry/borrow/
  * shifted-out bit where the routine has one. out may alias a.
  */
-static int g_entry_mode = 0;   /* 0: through the C++ methods; 1..4: the assembly routine itself through jv_x86_tramp with flagsel = mode-1 */
+/* 0: through the C++ methods; 1..4: the assembly routine itself through jv_x86_tramp with flagsel = mode-1. The cell lives in the simulator's memory
+   (bound once, right after load): switching modes must not be a write to this module's own image, which the C20 check write-protects. */
+static int g_entry_mode_local = 0; static int* g_entry_mode_p = &g_entry_mode_local;
+#define g_entry_mode (*g_entry_mode_p)
+void jv_bind_entry_mode(int* cell) { if (cell) { *cell = 0; g_entry_mode_p = cell; } }
 int jv_set_entry_mode(int mode) { g_entry_mode = JV_X86_ASM ? mode : 0; return JV_X86_ASM; }
 int jv_prim(int op, void* out, const void* a, const void* b) {
 #if JV_X86_ASM
